@@ -35,12 +35,12 @@ REGIMES = ["BOOL", "MT", "MP", "FREE", "QQ", "QQ", "FLOAT", "FLOAT", "REAL", "LO
 
 
 def examples(tier):
-    return 2000 if tier == "quick" else 24000
+    return 3200 if tier == "quick" else 32000
 
 
 @st.composite
 def strategy(draw, tier="quick"):
-    g = draw(gen.grammar(regimes=REGIMES, symbols=True, signed=True, **gen.size(tier)))
+    g = draw(gen.grammar(regimes=REGIMES, symbols=True, signed=True, cycle_rate=0.2, **gen.size(tier)))
     return {
         "g": g,
         "perm": draw(st.sampled_from([0, 0, 1, 3, "rev"])),
